@@ -214,6 +214,27 @@ def render_shape():
     return "\n".join(lines) + "\n"
 
 
+# ---- every function of the code is classified: modelled (where), hook, or not modelled (why) ---------------------
+def check_fn_map():
+    here = os.path.dirname(os.path.abspath(__file__))
+    sys.path.insert(0, here)
+    from fn_scan import scan
+    found = {f: ns for f, ns in scan(REPO).items() if ns}
+    fmap = json.load(open(os.path.join(here, "fn_map.json")))
+    problems = []
+    for f, ns in sorted(found.items()):
+        for n in ns:
+            if n not in fmap.get(f, {}):
+                problems.append("function %s of %s is not classified in tools/fn_map.json (modelled where? hook? not modelled why?)" % (n, f))
+    for f, d in sorted(fmap.items()):
+        for n in d:
+            if n not in found.get(f, []):
+                problems.append("tools/fn_map.json classifies %s of %s, which no longer exists" % (n, f))
+    if problems:
+        raise Fail("; ".join(problems[:6]) + (" ... (%d in all)" % len(problems) if len(problems) > 6 else ""))
+    return sum(len(d) for d in fmap.values())
+
+
 def main():
     out = sys.argv[1] if len(sys.argv) > 1 else "/verif/coq/Consts.v"
     try:
@@ -223,6 +244,11 @@ def main():
         sys.exit(2)
     try:
         shape = render_shape()
+    except Fail as e:
+        print("gen_consts: BROKEN TIE: %s" % e)
+        sys.exit(2)
+    try:
+        nfn = check_fn_map()
     except Fail as e:
         print("gen_consts: BROKEN TIE: %s" % e)
         sys.exit(2)
@@ -237,7 +263,7 @@ def main():
             f.write(text)
     if len(sys.argv) > 2:
         json.dump(vals, open(sys.argv[2], "w"), indent=0, sort_keys=True)
-    print("gen_consts: %d constants%s" % (len(vals), "" if old == text else " (changed)"))
+    print("gen_consts: %d constants%s, %d functions classified" % (len(vals), "" if old == text else " (changed)", nfn))
 
 
 if __name__ == "__main__":
